@@ -224,8 +224,15 @@ def fam_bufreq(rng):
         else:
             c = _basic_case(rng, rs, cfg)
         if rng.random() < 0.3:
-            c['srcs'] = [c['srcs'][0] * rng.choice([3, 20, 200])]      # long inputs: growth, YY_READ_BUF_SIZE cap
+            rep = rng.choice([3, 20, 200])
+            c['srcs'] = [c['srcs'][0] * rep]      # long inputs: growth, YY_READ_BUF_SIZE cap
             c['bufsize'] = rng.choice([1, 2, 7, 64, 8192, 16384, 20000])
+            if rep == 200:
+                # rules that look far ahead make scanning quadratic, and every NUL inside such a
+                # look-ahead costs a yy_get_previous_state() over the text so far (cubic): the long
+                # inputs come in large reads and without NULs
+                c['sched'] = rng.choice([[], [4096], [8192, 100], [9000]])
+                c['srcs'] = [[b if b != 0 else 1 for b in c['srcs'][0]]]
         c['logreads'] = 2
         return c
     return rs, cfg, gen
